@@ -26,7 +26,7 @@ class FragReturn(Exception):
         self.value = value
 
 
-def run_fragment(body: Sequence[ast.stmt], names: Dict[str, Any], attrs: Optional[Dict[str, Any]] = None, max_steps: int = 20000, funcs: Optional[Dict[str, ast.FunctionDef]] = None) -> Dict[str, Any]:
+def run_fragment(body: Sequence[ast.stmt], names: Dict[str, Any], attrs: Optional[Dict[str, Any]] = None, max_steps: int = 20000, funcs: Optional[Dict[str, ast.FunctionDef]] = None, materialise: bool = False) -> Dict[str, Any]:
     env = dict(names)
     attrs = dict(attrs or {})
     steps = [0]
@@ -34,7 +34,49 @@ def run_fragment(body: Sequence[ast.stmt], names: Dict[str, Any], attrs: Optiona
     def fold(e):
         f = Folder(env, attrs)
         f.funcs = dict(funcs or {})
+        f.materialise = materialise
         return f.fold(e)
+
+    def store_sub(t: ast.Subscript, v):
+        """M[i] = v, M[i, j] = v, M[:, j] = v, M[i, :] = v on a nested-list value bound to a name"""
+        import copy
+
+        if not (isinstance(t.value, ast.Name) and isinstance(env.get(t.value.id), list)):
+            raise Unfoldable("subscript store into something that is not a list value")
+        base = copy.deepcopy(env[t.value.id])
+
+        def part(e):
+            if isinstance(e, ast.Slice):
+                if e.lower is None and e.upper is None and e.step is None:
+                    return "all"
+                raise Unfoldable("partial slice store")
+            i = fold(e)
+            if isinstance(i, int) and not isinstance(i, bool):
+                return i
+            raise Unfoldable("store index")
+
+        sl = t.slice
+        parts = [part(e) for e in sl.elts] if isinstance(sl, ast.Tuple) else [part(sl)]
+        try:
+            if len(parts) == 1:
+                if parts[0] == "all":
+                    base = v if isinstance(v, list) else [v for _ in base]
+                else:
+                    base[parts[0]] = v
+            elif len(parts) == 2:
+                r, c = parts
+                rows = list(range(len(base))) if r == "all" else [r]
+                for k, row in enumerate(rows):
+                    val = v[k] if (r == "all" and isinstance(v, list)) else v
+                    if c == "all":
+                        base[row] = list(val) if isinstance(val, list) else [val for _ in base[row]]
+                    else:
+                        base[row][c] = val
+            else:
+                raise Unfoldable("store with more than two indices")
+        except (IndexError, TypeError) as exc:
+            raise Unfoldable(f"subscript store: {exc}")
+        env[t.value.id] = base
 
     def bind(t, v):
         if isinstance(t, ast.Name):
@@ -42,6 +84,8 @@ def run_fragment(body: Sequence[ast.stmt], names: Dict[str, Any], attrs: Optiona
         elif isinstance(t, (ast.Tuple, ast.List)) and isinstance(v, list) and len(v) == len(t.elts) and not any(isinstance(e, ast.Starred) for e in t.elts):
             for e, x in zip(t.elts, v):
                 bind(e, x)
+        elif isinstance(t, ast.Subscript):
+            store_sub(t, v)
         elif isinstance(t, ast.Attribute):
             from .astutil import attr_chain
 
@@ -80,6 +124,10 @@ def run_fragment(body: Sequence[ast.stmt], names: Dict[str, Any], attrs: Optiona
                 if st.value is not None:
                     bind(st.target, fold(st.value))
             elif isinstance(st, ast.AugAssign):
+                if isinstance(st.target, ast.Subscript):
+                    load = ast.Subscript(value=st.target.value, slice=st.target.slice, ctx=ast.Load())
+                    store_sub(st.target, fold(ast.BinOp(left=load, op=st.op, right=st.value)))
+                    continue
                 if not isinstance(st.target, ast.Name):
                     raise Unfoldable("augmented target")
                 env[st.target.id] = fold(ast.BinOp(left=ast.Name(id=st.target.id, ctx=ast.Load()), op=st.op, right=st.value))
